@@ -45,7 +45,7 @@ Fixpoint dec_tree (fuel : nat) (s : sexp) : option tree :=
   | 0 => None
   | S fu =>
       match s with
-      | SL [SA "leaf"; SZ v] => Some (Leaf v)
+      | SL [SA "leaf"; i; SZ v] => option_map (fun i => Leaf i v) (dec_nat i)
       | SL [SA "node"; SL kids] => option_map Node (dec_forest fu kids)
       | _ => None
       end
@@ -67,7 +67,7 @@ Definition dec_forest_top (s : sexp) : option forest :=
 
 Fixpoint enc_tree (t : tree) : sexp :=
   match t with
-  | Leaf v => SL [SA "leaf"; SZ v]
+  | Leaf i v => SL [SA "leaf"; enc_nat i; SZ v]
   | Node f => SL [SA "node"; SL (enc_forest f)]
   end
 with enc_forest (f : forest) : list sexp :=
@@ -87,7 +87,7 @@ Definition enc_outcome (x : outcome) : sexp :=
 
 (* the test function of the harness (harness/c12.py::make_apply_fn), on the first element of each leaf *)
 Fixpoint map_leaves_t (t : tree) : tree :=
-  match t with Leaf v => Leaf (v + 1)%Z | Node f => Node (map_leaves_f f) end
+  match t with Leaf _ v => Leaf 0 (v + 1)%Z | Node f => Node (map_leaves_f f) end
 with map_leaves_f (f : forest) : forest :=
   match f with FNil => FNil | FCons k t r => FCons k (map_leaves_t t) (map_leaves_f r) end.
 
@@ -101,10 +101,10 @@ Definition key_hash (k : option (list string)) : Z :=
 Definition test_fn (noneset : list Z) (cwd : bool) : userfn := fun key item others =>
   match item with
   | Node _ => Some (map_leaves_t item)
-  | Leaf v =>
+  | Leaf _ v =>
       if existsb (Z.eqb (v / 1000)%Z) noneset then None else
-      Some (Leaf (v + 1
-                  + fold_right (fun ov n => (match ov with ODef => 100 | OV (Node _) => 7 | OV (Leaf w) => w end + n)%Z) 0%Z others
+      Some (Leaf 0 (v + 1
+                  + fold_right (fun ov n => (match ov with ODef => 100 | OV (Node _) => 7 | OV (Leaf _ w) => w end + n)%Z) 0%Z others
                   + key_hash key + (if cwd then 10 else 0))%Z)
   end.
 
